@@ -71,6 +71,9 @@ def goal(w):
 
 
 def factory(sc):
+    if "ops" in sc:
+        kw = {"max_steps": 900, "horizon": 100.0, "deviations": tuple(sc.get("dev", ("drop",)))}
+        return netsim.resolve_tickets(dict(sc["cfg"])), sc["ops"], [TimerMonitor()], kw, goal
     cfg = dict(sc.get("cfg", {}))
     name = sc["script"]
     if "bigchain" in name:
@@ -193,6 +196,10 @@ def run(ctx):
     for name in ("hs_only",) if quick and "hs_only" in SCRIPTS else [n for n in SCRIPTS if n in ("hs_only", "echo", "pingpong")]:
         sc[name + "|compat"] = {"script": name, "cfg": {"version": V1, "c_supported": [V2, V1], "s_supported": [V2, V1]}}
     agg = netcheck.explore_scenarios(ctx, "c09", sc, 1, "d1", sig_extra=sig_extra)
+    from vlib import cfgpairs
+
+    netcheck.explore_scenarios(ctx, "c09", cfgpairs.scenarios(ctx.seed), 1, "config_pairs_d1",
+                               sig_extra=lambda sig, sid, devs: dict(sig, script_class="pairs"))
     if not quick:
         sc2 = {k: v for k, v in sc.items() if k.endswith("|v1")}
         netcheck.explore_scenarios(ctx, "c09", sc2, 2, "d2", sig_extra=sig_extra)
